@@ -416,14 +416,30 @@ fn gen_design(rng: &mut Rng, n: usize, p: usize, f32m: bool, out: &mut Out) -> (
         let (mu, sd) = mean_std(&x);
         let ok_cols = (0..p).all(|j| sd[j] > 0.0 && mu[j].abs() / sd[j] < if f32m { 30.0 } else { 900.0 } && mu[j] != 0.0);
         let c = cond_of(&x);
-        if ok_cols && c <= cmax {
+        // the least-squares design is [X 1]: it must have full column rank too (e.g. n = p + 1 with
+        // two equal rows makes it exactly singular although X itself is well conditioned; QR then
+        // panics "rank deficient", which is outside the property's quantifier)
+        let ca = cond_of(&augmented(&x));
+        if ok_cols && c <= cmax && ca <= 10.0 * cmax {
             return (x, fname.to_string(), c);
         }
-        out.count("gen:rejected(cond or mean/spread out of the quantifier)");
+        out.count("gen:rejected(cond of X or of [X 1], or mean/spread, out of the quantifier)");
         shrink *= 0.8;
     }
-    // benign fallback
-    let x: Vec<Vec<f64>> = (0..n).map(|_| (0..p).map(|_| { let v = rng.normal() + 0.5; if f32m { r32(v) } else { v } }).collect()).collect();
+    // benign fallback: plain Gaussian columns, redrawn until inside the quantifier
+    let mut best: Option<(Vec<Vec<f64>>, f64)> = None;
+    for _ in 0..200 {
+        let x: Vec<Vec<f64>> = (0..n).map(|_| (0..p).map(|_| { let v = rng.normal() + 0.5; if f32m { r32(v) } else { v } }).collect()).collect();
+        let c = cond_of(&x);
+        let ca = cond_of(&augmented(&x));
+        if c <= cmax && ca <= 10.0 * cmax {
+            return (x, "fallback-gaussian".to_string(), c);
+        }
+        if best.as_ref().map_or(true, |b| ca < b.1) {
+            best = Some((x, ca));
+        }
+    }
+    let (x, _) = best.unwrap();
     let c = cond_of(&x);
     (x, "fallback-gaussian".to_string(), c)
 }
@@ -1003,7 +1019,7 @@ fn main() {
     }
 
     // ---- correspondence: primitives ----
-    let k = if a.thorough { 4 } else { 1 };
+    let k = if a.thorough { 4 } else { 2 };
     for i in 0..(16 * k) {
         let n = rng.usize_in(1, 12);
         let p = rng.usize_in(1, 4);
@@ -1083,7 +1099,7 @@ fn main() {
     }
 
     // ---- correspondence: the Coq validator on search-sized fits ----
-    let nval = if a.thorough { 160 } else { 40 };
+    let nval = if a.thorough { 160 } else { 60 };
     for i in 0..nval {
         let f32m = i % 4 == 3;
         let (c, _) = gen_case(&mut rng, i % 2 == 0, if a.thorough { 60 } else { 30 }, 8, f32m, &mut out);
@@ -1091,7 +1107,7 @@ fn main() {
     }
 
     // ---- search ----
-    let nsearch = if a.thorough { 12000 } else { 1600 };
+    let nsearch = if a.thorough { 30000 } else { 5000 };
     for i in 0..nsearch {
         let f32m = i % 5 == 4;
         let ridge = i % 2 == 0;
